@@ -60,8 +60,10 @@ func parseClusterNodes(data string) (map[string]*instance, error) {
 		}
 
 		// attach slots to master node
+		// NOTE: a master which doesn't serve any slot (e.g. all of its slots
+		// are migrated away) only has the first 8 fields.
 		if len(fields) < 9 {
-			return nil, errInvalidClusterNodes
+			continue
 		}
 		slots, err := parseClusterNodesSlot(fields[8:])
 		if err != nil {
